@@ -3,6 +3,7 @@ package ovsdb
 import (
 	"bytes"
 	"encoding/json"
+	"fmt"
 	"strconv"
 )
 
@@ -142,33 +143,45 @@ func unmarshalExact(b []byte, v interface{}) error {
 	if err := d.Decode(v); err != nil {
 		return err
 	}
+	var err error
 	switch p := v.(type) {
 	case *interface{}:
-		*p = exactNumbers(*p)
+		*p, err = exactNumbers(*p)
 	case *[]interface{}:
-		exactNumbers(*p)
+		_, err = exactNumbers(*p)
 	case *map[string]interface{}:
-		exactNumbers(*p)
+		_, err = exactNumbers(*p)
 	}
-	return nil
+	return err
 }
 
-func exactNumbers(v interface{}) interface{} {
+// exactNumbers replaces every json.Number in a decoded value by a float64, or
+// by an int when it is an integer literal float64 cannot hold exactly. A number
+// that is in the range of neither is an error, as it is for json.Unmarshal.
+func exactNumbers(v interface{}) (interface{}, error) {
+	var err error
 	switch x := v.(type) {
 	case json.Number:
-		f, _ := x.Float64()
-		if i, err := strconv.ParseInt(string(x), 10, 64); err == nil && strconv.FormatFloat(f, 'f', -1, 64) != string(x) {
-			return int(i)
+		f, ferr := x.Float64()
+		if i, ierr := strconv.ParseInt(string(x), 10, 64); ierr == nil && strconv.FormatFloat(f, 'f', -1, 64) != string(x) {
+			return int(i), nil
 		}
-		return f
+		if ferr != nil {
+			return nil, fmt.Errorf("json: cannot unmarshal number %s into Go value of type float64", string(x))
+		}
+		return f, nil
 	case []interface{}:
 		for i := range x {
-			x[i] = exactNumbers(x[i])
+			if x[i], err = exactNumbers(x[i]); err != nil {
+				return nil, err
+			}
 		}
 	case map[string]interface{}:
 		for k := range x {
-			x[k] = exactNumbers(x[k])
+			if x[k], err = exactNumbers(x[k]); err != nil {
+				return nil, err
+			}
 		}
 	}
-	return v
+	return v, nil
 }
